@@ -1,6 +1,4 @@
-use gmsol_chainlink_datastreams::report::{decode_full_report, ExtendedMarketStatus, Report};
-use gmsol_chainlink_datastreams::FromChainlinkReport;
-use gmsol_utils::price::{feed_price::PriceFeedPrice, U192};
+use gmsol_chainlink_datastreams::report::decode_full_report;
 
 fn be64(b: &[u8]) -> u64 {
     u64::from_be_bytes([b[0], b[1], b[2], b[3], b[4], b[5], b[6], b[7]])
@@ -51,128 +49,5 @@ fn c28_decode_full_report_256() {
     full_report::<256>();
 }
 
-fn any_ext() -> Option<ExtendedMarketStatus> {
-    let v: u8 = kani::any();
-    match v {
-        0 => None,
-        1 => Some(ExtendedMarketStatus::Unknown),
-        2 => Some(ExtendedMarketStatus::PreMarket),
-        3 => Some(ExtendedMarketStatus::RegularHours),
-        4 => Some(ExtendedMarketStatus::PostMarket),
-        5 => Some(ExtendedMarketStatus::Overnight),
-        _ => Some(ExtendedMarketStatus::Closed),
-    }
-}
-
-fn status_byte(e: Option<ExtendedMarketStatus>) -> u8 {
-    // PriceFeedPrice status numbering: 0 Disabled 1 Unknown 2 PreMarket 3 RegularHours 4 PostMarket 5 Overnight 6 Closed
-    match e {
-        None => 0,
-        Some(ExtendedMarketStatus::Unknown) => 1,
-        Some(ExtendedMarketStatus::PreMarket) => 2,
-        Some(ExtendedMarketStatus::RegularHours) => 3,
-        Some(ExtendedMarketStatus::PostMarket) => 4,
-        Some(ExtendedMarketStatus::Overnight) => 5,
-        Some(ExtendedMarketStatus::Closed) => 6,
-    }
-}
-
-fn k0(_n: &U192) -> u8 {
-    0
-}
-fn k1(_n: &U192) -> u8 {
-    1
-}
-
-fn from_report(k: u8) {
-    let (p, b, a): (u128, u128, u128) = (kani::any(), kani::any(), kani::any());
-    let (sp, sb, sa): (bool, bool, bool) = (kani::any(), kani::any(), kani::any());
-    let obs: u32 = kani::any();
-    let lut: Option<u64> = if kani::any() { Some(kani::any()) } else { None };
-    let ext = any_ext();
-    // k = 0: values are the u128s themselves. k = 1: values are v*2^8 (top limb = low byte.. see below)
-    let mk = |v: u128| {
-        if k == 0 {
-            U192::from(v)
-        } else {
-            // any value in [2^128, 2^136): limbs (lo, hi, top) with 1 <= top < 256; those need exactly one
-            // decimal to be dropped (2^136 < u128::MAX * 10)
-            U192::from_limbs([v as u64, (v >> 64) as u64, 1 + ((v >> 57) as u64 & 0x7f)])
-        }
-    };
-    let (pu, bu, au) = (mk(p), mk(b), mk(a));
-    let report = Report::verif_new(obs, lut, (sp, pu), (sb, bu), (sa, au), ext);
-    match PriceFeedPrice::from_chainlink_report(&report) {
-        Ok(fp) => {
-            assert!(sp && sb && sa, "C28: negative bid/price/ask accepted");
-            assert!(bu <= pu && pu <= au, "C28: misordered bid/price/ask accepted");
-            assert!(fp.min_price() <= fp.price() && fp.price() <= fp.max_price(), "C28: bid <= price <= ask not preserved");
-            let img: [u8; 64] = bytemuck::cast(fp);
-            assert!(img[0] == 18 - k, "C28: decimals differ from Report::DECIMALS - divisor_decimals");
-            if k == 0 {
-                assert!(*fp.min_price() == b && *fp.price() == p && *fp.max_price() == a, "C28: values not scaled by the same power of ten");
-            } else {
-                // same power of ten for all three: x/10 exactly (checked by multiplication in 192 bits:
-                // 10*q <= x < 10*q + 10)
-                let ok = |q: u128, x: U192| {
-                    let q10 = U192::from(q) * U192::from(10u8);
-                    q10 <= x && x - q10 < U192::from(10u8)
-                };
-                assert!(ok(*fp.price(), pu), "C28: price not divided by 10^k");
-                assert!(ok(*fp.min_price(), bu), "C28: bid not divided by 10^k");
-                assert!(ok(*fp.max_price(), au), "C28: ask not divided by 10^k");
-            }
-            assert!(fp.ts() == obs as i64);
-            assert!(img[2] == status_byte(ext), "C28: market status not preserved");
-            match lut {
-                None => {
-                    assert!(img[1] == 0b001, "C28: flags without last-update tracking must be {Open}");
-                    assert!(fp.last_update_diff_secs().is_none());
-                }
-                Some(l) => {
-                    let obs_ns = obs as u128 * 1_000_000_000;
-                    assert!((l as u128) < obs_ns + 1_000_000_000, "C28: last update later than the observation by >= 1s accepted");
-                    let diff_ns = if obs_ns >= l as u128 { obs_ns - l as u128 } else { 0 };
-                    let diff_s = (diff_ns + 999_999_999) / 1_000_000_000;
-                    if diff_s <= u32::MAX as u128 {
-                        assert!(img[1] == 0b111);
-                        assert!(fp.last_update_diff_secs() == Some(diff_s as u32), "C28: last-update age mis-rounded");
-                    } else {
-                        assert!(img[1] == 0b110 && fp.last_update_diff_secs() == Some(u32::MAX));
-                    }
-                    kani::cover!(diff_s > 0 && diff_s <= u32::MAX as u128, "tracked last update");
-                }
-            }
-            kani::cover!(true, "report accepted");
-        }
-        Err(_) => {
-            let obs_ns = obs as u128 * 1_000_000_000;
-            let late = matches!(lut, Some(l) if l as u128 >= obs_ns + 1_000_000_000);
-            assert!(!(sp && sb && sa) || !(bu <= pu && pu <= au) || late, "C28: well-formed report rejected");
-        }
-    }
-}
-
-//@ prop=C28 tier=experimental kind=hold
-//@ enc=<PriceFeedPrice as FromChainlinkReport>::from_chainlink_report, Report::{non_negative_price,non_negative_bid,non_negative_ask,last_update_timestamp,extended_market_status}, canonical_market_status, PriceFeedPrice::{new,set_flag,set_market_status}, ruint U192 pow/div (divisor 1)
-//@ bound=bid/price/ask any values below 2^128 (divisor decimals 0), any signs, any u32 observation timestamp, any optional u64 last-update timestamp, any status
-//@ stubs=find_divisor_decimals stubbed to the constant 0 (its own contract is decided by c26_find_divisor_decimals; for values < 2^128 it returns 0); Report built through the cfg(gmsol_verif) hook Report::verif_new (ABI/bigint decoding not executed)
-//@ args=-Z,stubbing,--cbmc-args,--unwindset,memcmp.0:26
-#[kani::proof]
-#[kani::stub(gmsol_utils::price::find_divisor_decimals, k0)]
-#[kani::unwind(8)]
-fn c28_from_report_k0() {
-    from_report(0);
-}
-
-//@ prop=C28 tier=experimental kind=hold
-//@ enc=<PriceFeedPrice as FromChainlinkReport>::from_chainlink_report with ruint U192 pow/div by 10
-//@ bound=bid/price/ask any values in [2^128, 2^128+2^135) shape (top limb 1..=128), divisor decimals 1
-//@ stubs=find_divisor_decimals stubbed to the constant 1 (values in that range need exactly one decimal dropped); Report::verif_new hook
-//@ args=-Z,stubbing,--cbmc-args,--unwindset,memcmp.0:26
-#[kani::proof]
-#[kani::stub(gmsol_utils::price::find_divisor_decimals, k1)]
-#[kani::unwind(8)]
-fn c28_from_report_k1() {
-    from_report(1);
-}
+// The report -> PriceFeedPrice conversion harnesses (formerly c28_from_report_k0/k1 here, which did not
+// finish) are in c28_convert.rs.
